@@ -119,7 +119,9 @@ theorem transferFrom_exec {c : Cfg} (hg : good c = true) {s s' : State} {sp f t 
     (∀ w, w ≠ v → s'.vs w = s.vs w) ∧
     ∃ v' rf rt, VS.transfer c (s.vs v) s.height f t (x * ONE) (s.hasRecvRedel f v) = .ok (v', rf, rt) ∧ s'.vs v = v' := by
   obtain ⟨-, -, -, -, -, -, -, -, -, -, -, g12, g13, -⟩ := good_fields hg
-  simp only [State.exec, g12, g13, Bool.true_and, decide_eq_true_eq, if_true] at h
+  simp only [State.exec] at h
+  rw [transferFromTx_eq hg] at h
+  simp only [State.transferFromRef, g12, g13, Bool.true_and, decide_eq_true_eq, if_true] at h
   split at h
   · cases h
   · split at h
